@@ -242,6 +242,104 @@ pub fn run(args: &Args, out: &mut Out) {
             i += 1;
         }
     }
+    // `like`: exhaustive small scope (all patterns over {a,b,*} up to length 5 x all texts over {a,b} up to length 5)
+    // plus self-overlapping / repeated-prefix families, against the declarative matcher, the loop mirror and the
+    // index-form mirror (driver op `like`); a sample also goes through every evaluation route.
+    {
+        use cedar_policy_core::ast::{Pattern, PatternElem};
+        let alpha = [PatternElem::Char('a'), PatternElem::Char('b'), PatternElem::Wildcard];
+        let mut pats: Vec<Vec<PatternElem>> = vec![vec![]];
+        let mut frontier: Vec<Vec<PatternElem>> = vec![vec![]];
+        let maxlen = if args.thorough { 6 } else { 5 };
+        for _ in 0..maxlen {
+            let mut next = Vec::new();
+            for p in &frontier { for a in alpha.iter() { let mut q = p.clone(); q.push(*a); next.push(q); } }
+            pats.extend(next.iter().cloned());
+            frontier = next;
+        }
+        let mut texts: Vec<String> = vec![String::new()];
+        let mut tf: Vec<String> = vec![String::new()];
+        for _ in 0..maxlen {
+            let mut next = Vec::new();
+            for t in &tf { for c in ['a', 'b'] { next.push(format!("{t}{c}")); } }
+            texts.extend(next.iter().cloned());
+            tf = next;
+        }
+        let mut lr = Rng::new(args.seed ^ 0x11e);
+        let mut like_one = |p: &[PatternElem], text: &str, out: &mut Out, routes: bool| {
+            let pat = Pattern::from(p.to_vec());
+            match catch_unwind(AssertUnwindSafe(|| pat.wildcard_match(text))) {
+                Ok(b) => out.line(format!("(like {} {})", sx::pattern_sx(p), sx::qs(text)), format!("(like {b} {b} {b})"), format!("like {} like {}", sx::qs(text), pat)),
+                Err(pn) => out.propfail("panic in Pattern::wildcard_match", &format!("{} like {}", sx::qs(text), pat), &panic_msg(pn)),
+            }
+            out.count("like_direct");
+            if routes { out.count("like_routes"); }
+        };
+        for p in &pats { for t in &texts { like_one(p, t, out, false); } }
+        // repeated-prefix / self-overlapping segments after a star, multi-byte characters
+        let chars = ['a', 'b', 'é', '\u{1F600}', '-', '*'];
+        let nrep = if args.thorough { 40000 } else { 4000 };
+        let w0 = { let mut wr = Rng::new(3); gen::gen_world(&mut wr) };
+        let wsx0 = world_sx(&w0);
+        for i in 0..nrep {
+            let seg_len = 1 + lr.below(4);
+            let c0 = *lr.pick(&chars);
+            let mut seg: Vec<char> = (0..seg_len).map(|_| if lr.chance(70) { c0 } else { *lr.pick(&chars) }).collect();
+            if lr.chance(50) { seg.push(*lr.pick(&chars)); }
+            let reps = lr.below(4);
+            let mut text: String = std::iter::repeat(c0).take(reps).collect();
+            if lr.chance(70) { text.extend(seg.iter()); } else { text.extend(seg.iter().take(seg.len().saturating_sub(1))); }
+            if lr.chance(30) { text.push(*lr.pick(&chars)); }
+            let mut pat: Vec<PatternElem> = Vec::new();
+            if lr.chance(30) { pat.push(PatternElem::Char(c0)); }
+            pat.push(PatternElem::Wildcard);
+            pat.extend(seg.iter().map(|c| PatternElem::Char(*c)));
+            if lr.chance(40) { pat.push(PatternElem::Wildcard); if lr.chance(50) { pat.extend(seg.iter().map(|c| PatternElem::Char(*c))); } }
+            like_one(&pat, &text, out, false);
+            if i % 8 == 0 {
+                one_expr(&w0, &wsx0, &Expr::like(Expr::val(text.as_str()), Pattern::from(pat.clone())), out, "like-rep");
+            }
+        }
+    }
+    // `in` against sets holding an entity the left side is in together with junk of every kind
+    {
+        use cedar_policy_core::ast::Var;
+        let mut jr = Rng::new(args.seed ^ 0x1a5e7);
+        let nj = if args.thorough { 20 } else { 3 };
+        for _ in 0..nj {
+            let w = gen::gen_world(&mut jr);
+            let wsx = world_sx(&w);
+            let junk: Vec<Expr> = vec![
+                Expr::val(true), Expr::val(7), Expr::val("s"), Expr::set(vec![]), Expr::set(vec![Expr::val(gen::mk_uid("User", "a"))]),
+                Expr::record(vec![("x".into(), Expr::val(1))]).unwrap(),
+                Expr::call_extension_fn(gen::name("ip"), vec![Expr::val("10.0.0.1")]),
+                Expr::call_extension_fn(gen::name("decimal"), vec![Expr::val("1.0")]),
+            ];
+            let mut lefts: Vec<Expr> = vec![Expr::var(Var::Principal), Expr::var(Var::Resource), Expr::var(Var::Action)];
+            for u in w.uids_present.iter().take(6) { lefts.push(Expr::val(u.clone())); }
+            lefts.push(Expr::val(gen::mk_uid("User", "zz")));
+            for l in &lefts {
+                // candidates on the right: the entity itself, one of its ancestors if any, an unrelated one
+                let mut rights: Vec<Expr> = vec![l.clone(), Expr::val(gen::gen_uid(&mut jr))];
+                if let Ok(Ok(v)) = eval(&w, l) {
+                    if let ast::ValueKind::Lit(ast::Literal::EntityUID(u)) = &v.value {
+                        if let cedar_policy_core::entities::Dereference::Data(e) = w.entities.entity(u) {
+                            if let Some(a) = e.ancestors().next() { rights.push(Expr::val(a.clone())); }
+                        }
+                    }
+                }
+                for rgt in &rights {
+                    for j in &junk {
+                        for order in 0..2 {
+                            let elems = if order == 0 { vec![rgt.clone(), j.clone()] } else { vec![j.clone(), rgt.clone()] };
+                            one_expr(&w, &wsx, &Expr::is_in(l.clone(), Expr::set(elems)), out, "in-junk");
+                            out.count("in_set_with_junk");
+                        }
+                    }
+                }
+            }
+        }
+    }
     // mirror of `Set` (fast / authoritative): contains, is_subset, is_disjoint, == on generated set pairs
     {
         use cedar_policy_core::ast::{Set, ValueKind};
